@@ -298,6 +298,38 @@ func checkMain(args []string) {
 			violations++
 		}
 	}
+	// whole-program frame condition on package-level state (C06: nothing survives a parse; C18: nothing is shared)
+	var sharedScan map[string]any
+	if *prop == "C06" || *prop == "C18" {
+		hits, nf, ni, ro := eng.sharedStateScan()
+		for _, h := range hits {
+			full := "structural::shared-state/" + h.Func + "/" + h.Var + "/" + h.What
+			nOb++
+			isKnown := false
+			for _, k := range known {
+				if k.Prop == *prop && k.Obligation == full {
+					fmt.Printf("KNOWN-FINDING: property=%s %s\n", *prop, k.Text)
+					isKnown = true
+				}
+			}
+			if isKnown {
+				nOb--
+				continue
+			}
+			rp := filepath.Join(replayDir, sanitize(full)+".json")
+			os.WriteFile(rp, []byte(fmt.Sprintf("{\"property\":%q,\"obligation\":%q,\"function\":%q,\"variable\":%q,\"what\":%q,\"position\":%q,\"reason\":\"package-level state is written or shared by code reachable outside init: a parse can leave something behind / two parses can race on it\"}\n", *prop, full, h.Func, h.Var, h.What, h.Pos)), 0o644)
+			fmt.Printf("VIOLATION property=%s replay=%s no-failing-input-found\n", *prop, rp)
+			fmt.Printf("  structural frame obligation failed: %s: %s %s (%s)\n", h.Func, h.What, h.Var, h.Pos)
+			violations++
+		}
+		nOb++ // the scan itself: one structural obligation per run, discharged when it has no hits
+		if len(hits) == 0 {
+			nDis++
+			bySolver["structural-scan"]++
+		}
+		sharedScan = map[string]any{"functions_scanned": nf, "instructions_scanned": ni, "hits": len(hits), "package_level_variables_read_only": ro,
+			"rule": "no store / map update / delete through a package-level variable, no package-level sync or atomic object handed to a call, no go statement, in any non-test function outside package initialisers"}
+	}
 	var deadList []string
 	for key, n := range loopEdges {
 		nCanary++
@@ -342,6 +374,7 @@ func checkMain(args []string) {
 			"samples":                samples,
 			"per_obligation":         recs,
 			"locked_obligations":     len(lock),
+			"shared_state_scan":      sharedScan,
 			"generated_but_not_claimed": append(notClaimed, skippedQuick...),
 		},
 	}
